@@ -146,6 +146,25 @@ impl<T: Gen> Gen for Arc<T> {
       r
    }
 }
+
+pub fn share_rc<T: Clone>(s: &mut dyn Src, v: T) -> Rc<T> {
+   let shared = s.byte();
+   s.require(shared < 2);
+   let r = Rc::new(v);
+   if shared == 1 {
+      std::mem::forget(r.clone());
+   }
+   r
+}
+pub fn share_arc<T: Clone>(s: &mut dyn Src, v: T) -> Arc<T> {
+   let shared = s.byte();
+   s.require(shared < 2);
+   let r = Arc::new(v);
+   if shared == 1 {
+      std::mem::forget(r.clone());
+   }
+   r
+}
 impl<T: Gen> Gen for ConstPropagation<T> {
    fn gen(s: &mut dyn Src) -> Self {
       let tag = s.byte();
@@ -342,6 +361,89 @@ pub fn dual_bounds<T: BoundedLattice + Clone + PartialEq>(r: &mut Report) {
    chk!(r, "reverse_bottom_is_inner_top", Reverse::<T>::bottom() == Reverse(T::top()));
 }
 
+/// Rc / Arc / Box lift the inner lattice unchanged: every operation agrees with the inner type's operation
+/// (the inner impls are verified separately; together this gives all laws for the wrapper).
+pub fn lift_agrees<W, T>(r: &mut Report, a: T, b: T, wa: W, wb: W, inner: fn(&W) -> &T)
+where
+   W: Lattice + Clone,
+   T: Lattice + Clone + PartialEq,
+{
+   let _ = &r;
+   let mut x = wa.clone();
+   let ch = x.join_mut(wb.clone());
+   let mut y = a.clone();
+   let ch2 = y.join_mut(b.clone());
+   chk!(r, "lift_join_mut_value_is_inner_join_mut", *inner(&x) == y);
+   chk!(r, "lift_join_mut_flag_is_inner_flag", ch == ch2);
+   let mut x = wa.clone();
+   let ch = x.meet_mut(wb.clone());
+   let mut y = a.clone();
+   let ch2 = y.meet_mut(b.clone());
+   chk!(r, "lift_meet_mut_value_is_inner_meet_mut", *inner(&x) == y);
+   chk!(r, "lift_meet_mut_flag_is_inner_flag", ch == ch2);
+   chk!(r, "lift_join_is_inner_join", *inner(&wa.clone().join(wb.clone())) == a.clone().join(b.clone()));
+   chk!(r, "lift_meet_is_inner_meet", *inner(&wa.clone().meet(wb.clone())) == a.clone().meet(b.clone()));
+   chk!(r, "lift_partial_cmp_is_inner_partial_cmp", wa.partial_cmp(&wb) == a.partial_cmp(&b));
+   // the arguments are not modified through sharing
+   chk!(r, "lift_does_not_modify_shared_arguments", *inner(&wa) == a && *inner(&wb) == b);
+}
+
+/// Product<[T; N]> behaves as the N-tuple product (verified separately): component-wise operations,
+/// flag = OR of the component flags, product order.
+pub fn array_agrees<const N: usize>(r: &mut Report, a: [u8; N], b: [u8; N]) {
+   let _ = &r;
+   let mut x = Product(a);
+   let ch = x.join_mut(Product(b));
+   let mut any = false;
+   let mut ok = true;
+   let mut i = 0;
+   while i < N {
+      let mut e = a[i];
+      let c = e.join_mut(b[i]);
+      if c { any = true; }
+      if x.0[i] != e { ok = false; }
+      i += 1;
+   }
+   chk!(r, "array_join_mut_is_componentwise", ok);
+   chk!(r, "array_join_mut_flag_is_or_of_component_flags", ch == any);
+   let mut x = Product(a);
+   let ch = x.meet_mut(Product(b));
+   let mut any = false;
+   let mut ok = true;
+   let mut i = 0;
+   while i < N {
+      let mut e = a[i];
+      let c = e.meet_mut(b[i]);
+      if c { any = true; }
+      if x.0[i] != e { ok = false; }
+      i += 1;
+   }
+   chk!(r, "array_meet_mut_is_componentwise", ok);
+   chk!(r, "array_meet_mut_flag_is_or_of_component_flags", ch == any);
+   chk!(r, "array_join_equals_join_mut", Product(a).join(Product(b)) == { let mut t = Product(a); t.join_mut(Product(b)); t });
+   chk!(r, "array_meet_equals_meet_mut", Product(a).meet(Product(b)) == { let mut t = Product(a); t.meet_mut(Product(b)); t });
+   // product order: Equal iff all equal, Less iff all <=, Greater iff all >=, else None
+   let mut all_le = true;
+   let mut all_ge = true;
+   let mut i = 0;
+   while i < N {
+      if !(a[i] <= b[i]) { all_le = false; }
+      if !(a[i] >= b[i]) { all_ge = false; }
+      i += 1;
+   }
+   let expect = if all_le && all_ge { Some(std::cmp::Ordering::Equal) } else if all_le { Some(std::cmp::Ordering::Less) } else if all_ge { Some(std::cmp::Ordering::Greater) } else { None };
+   chk!(r, "array_partial_cmp_is_product_order", Product(a).partial_cmp(&Product(b)) == expect);
+   let bot = <Product<[u8; N]>>::bottom();
+   let top = <Product<[u8; N]>>::top();
+   let mut ok = true;
+   let mut i = 0;
+   while i < N {
+      if bot.0[i] != u8::MIN || top.0[i] != u8::MAX { ok = false; }
+      i += 1;
+   }
+   chk!(r, "array_top_bottom_are_componentwise_extremal", ok);
+}
+
 // ---------------------------------------------------------------------------------------------
 // registry: harness name -> runner over a byte source (shared by Kani and native replay)
 
@@ -466,6 +568,18 @@ kani {
    laws_arc_p2 => |s, r| { laws2!(s, r, Arc<P2>) },
    assoc_arc_p2 => |s, r| { assoc3!(s, r, Arc<P2>) },
    laws_arc_constprop => |s, r| { laws2!(s, r, Arc<ConstPropagation<u8>>) },
+   // wrappers: agreement with the inner (verified) lattice, unique and shared references
+   lift_rc_p2 => |s, r| { let a = P2::gen(s); let b = P2::gen(s); let wa = share_rc(s, a); let wb = share_rc(s, b); lift_agrees::<Rc<P2>, P2>(r, a, b, wa, wb, |w| &**w); },
+   lift_rc_constprop => |s, r| { let a = <ConstPropagation<u8>>::gen(s); let b = <ConstPropagation<u8>>::gen(s); let wa = share_rc(s, a); let wb = share_rc(s, b); lift_agrees::<Rc<ConstPropagation<u8>>, ConstPropagation<u8>>(r, a, b, wa, wb, |w| &**w); },
+   lift_arc_p2 => |s, r| { let a = P2::gen(s); let b = P2::gen(s); let wa = share_arc(s, a); let wb = share_arc(s, b); lift_agrees::<Arc<P2>, P2>(r, a, b, wa, wb, |w| &**w); },
+   lift_arc_constprop => |s, r| { let a = <ConstPropagation<u8>>::gen(s); let b = <ConstPropagation<u8>>::gen(s); let wa = share_arc(s, a); let wb = share_arc(s, b); lift_agrees::<Arc<ConstPropagation<u8>>, ConstPropagation<u8>>(r, a, b, wa, wb, |w| &**w); },
+   lift_box_p2 => |s, r| { let a = P2::gen(s); let b = P2::gen(s); lift_agrees::<Box<P2>, P2>(r, a, b, Box::new(a), Box::new(b), |w| &**w); },
+   lift_box_option_u8 => |s, r| { let a = <Option<u8>>::gen(s); let b = <Option<u8>>::gen(s); lift_agrees::<Box<Option<u8>>, Option<u8>>(r, a, b, Box::new(a), Box::new(b), |w| &**w); },
+   agrees_array0 => |s, r| { let a = <[u8; 0]>::gen(s); let b = <[u8; 0]>::gen(s); array_agrees::<0>(r, a, b); },
+   agrees_array1 => |s, r| { let a = <[u8; 1]>::gen(s); let b = <[u8; 1]>::gen(s); array_agrees::<1>(r, a, b); },
+   agrees_array2 => |s, r| { let a = <[u8; 2]>::gen(s); let b = <[u8; 2]>::gen(s); array_agrees::<2>(r, a, b); },
+   agrees_array3 => |s, r| { let a = <[u8; 3]>::gen(s); let b = <[u8; 3]>::gen(s); array_agrees::<3>(r, a, b); },
+   agrees_array4 => |s, r| { let a = <[u8; 4]>::gen(s); let b = <[u8; 4]>::gen(s); array_agrees::<4>(r, a, b); },
    // tuples (lexicographic Ord) and products (component-wise)
    laws_tuple1 => |s, r| { laws3!(s, r, (u8,)) },
    laws_tuple2 => |s, r| { laws3!(s, r, (u8, i8)) },
